@@ -417,6 +417,7 @@ func init() {
 		Stub:        []string{"net.Listener (SimListener)", "net.Conn (SimConn) with cut/RST/half-close/stall faults", "Backend/Session (SimBackend, reads to the end, propagates reader errors)", "clock (synctest)", "SMTP client (raw driver)"},
 		Assumptions: []string{"the other direction is judged for FIN and half-close cuts only: a message that arrived in full is delivered in full even when the peer's FIN is right behind it (also when the transport returns the last octets together with io.EOF)", "exhaustive over cut offsets of the generated corpus, not over all conversations", "reply positions are static because every command of the corpus is valid; replies are read from what the server wrote, delivered or not"},
 		Required:    []string{"cut_inside_end_marker", "cut_inside_bdat_transfer", "cut_inside_data_transfer", "cut_inside_message_of_exactly_the_size_limit", "cut_fin", "cut_rst", "cut_halfclose", "stall", "server_close_inside_transfer", "transfer_abandoned_by_RSET", "transfer_abandoned_by_QUIT", "cut_inside_the_line_end_of_an_empty_LAST_chunk"},
+		Instr:       true,
 		QuickRuns:   900, ThoroughRuns: 60000,
 	})
 }
